@@ -133,10 +133,10 @@ def pDir : TP DirRep := do
   let t ← tok
   match t with
   | "redirect" => pure .redirect
-  | "redirect200" => pure .redirect
+  | "redirect200" => pure .redirect200
   | "noloc" => pure .noloc          -- 200 without Location
   | "noloc307" => pure .noloc       -- 307 without Location
-  | "noloc301" => pure .badstatus   -- 301 without Location: handed back, not a 307/200
+  | "noloc301" => pure .badstatusNoLoc   -- 301 without Location: handed back, not a 307/200
   | "badstatus" => pure .badstatus  -- 302 to another host
   | "badstatus301" => pure .badstatus
   | "badstatus303" => pure .badstatus
